@@ -116,6 +116,24 @@ Theorem C12_cursor_installed : forall l x y w h img msk l',
 Proof. exact update_cursor_installs. Qed.
 Print Assumptions C12_cursor_installed.
 
+(** The composition theorem WITH the cursor.  From a fresh client (no screen, no cursor; the pointer
+    wherever it is, any image mode, with or without --nocursor), after ANY accepted history of
+    rectangle updates, desktop-size changes and cursor-shape updates, every pixel of the screen equals
+    the reference canvas [rf R] - a function of the history alone ([ref_lstep], Proofs/CursorHistoryP.v):
+    the colour most recently sent for the pixel (content cut off by a smaller size is gone, black if
+    none), with the current cursor stamped over it, hot spot on the pointer, through its mask, clipped
+    to the screen, after every rectangle update and every cursor change (that is when the client
+    draws it) - and the screen has the reference size. *)
+From VD Require Import Proofs.CursorHistoryP.
+Theorem C12_composition_with_cursor : forall l ops l',
+  screen l = None -> cur l = None -> Forall lop_geom ops -> lrun l ops = Some l' ->
+  let R := fold_left (ref_lstep (l_mode l) (l_nocursor l) (l_x l) (l_y l)) ops r0 in
+  wf_opt (screen l') /\
+  (forall x y, 0 <= x -> 0 <= y -> get_opt (screen l') x y = rf R x y) /\
+  size_opt (screen l') = rsz R /\ cur l' = rcur R.
+Proof. exact fresh_client_composition_with_cursor. Qed.
+Print Assumptions C12_composition_with_cursor.
+
 Example C12_cursor_history_nonvacuous :
   let px (r g b : Z) := [r; g; b; 0] in
   let ops := [ LUpdate 1 1 1 1 (px 10 20 30);
